@@ -48,6 +48,11 @@ def run(ctx, B):
         names = formulas(syms_ok, quick, ctx.seed) + (nist if not quick else nist[::4] + ["Water, Liquid", "Air, Dry (near sea level)"]) + ["", "Uu", "water", None, "H2O)", "Rf"]
         # catalogue names that are proper prefixes of other catalogue names (and one truncated name): a lookup that compares prefixes confuses exactly these
         names += [n for n in nist if any(m != n and (m.startswith(n) or n.startswith(m)) for m in nist)] + ["Water, Liq", "Propane, Liqui"]
+        # strings that are NOT catalogue names although they begin with one / are one character short (the longest names first: a bounded comparison
+        # stops looking exactly there): neither a formula nor a NIST compound, so every compound function must fail on them
+        longest = sorted(nist, key=lambda n: (-len(n), n))
+        for n in (longest[:12] + nist[::9]) if quick else nist:
+            names += [n + " ", n + "x", n + "2", n[:-1]]
         names = list(dict.fromkeys(names))
         # composition of every name through the public API (formula first, NIST second)
         rp, lp = X.op("CompoundParser", "s", names); bp = xrl.parse_blob_lines(lp)
@@ -56,7 +61,7 @@ def run(ctx, B):
         for j, nm in enumerate(names):
             if j in bp:
                 nE, nall, mm, Zs, na, mf = c07.parse_cd(bp[j]); comp[nm] = (Zs, mf, None)
-            elif j in bn:
+            elif j in bn and nm in nist:            # a NIST compound is a member of the published list - not whatever the by-name lookup accepts
                 f = bn[j]; comp[nm] = ([int(x) for x in f[3].split(",")], [xrl.hd(x) for x in f[4].split(",")], xrl.hd(f[2]))
             else:
                 comp[nm] = None
